@@ -299,6 +299,16 @@ def run_recognition(notes):
         again = SC.determine(list(reversed(notes)) + [notes[0]])
         if not isinstance(again, list) or set(again) != gs:
             S.problem("scales.determine(reversed %r + repeated first)" % (notes,), sorted(gs), again)
+    # a note set may arrive in any iterable: a tuple, a set, an iterator that can be walked once, a generator
+    for label, arg in (("tuple", tuple(notes)), ("set", set(notes)), ("iterator", iter(list(notes))), ("generator", (n for n in list(notes)))):
+        S.trans(1)
+        try:
+            other = SC.determine(arg)
+        except Exception as e:                                   # noqa
+            other = e
+        if not isinstance(other, list) or set(other) != want:
+            S.problem("scales.determine(%s of %r)" % (label, notes), sorted(want), sorted(other) if isinstance(other, list) else other)
+            break
     # the caller owns the answer: after it has edited the lists it was given, the same question gets the same answer
     got.append("Z bogus")
     del got[:max(0, len(got) - 1)]
@@ -439,6 +449,9 @@ def explore(ctx):
     for clause in ("ascending", "descending", "degree"):
         if ctx.want(clause):
             ctx.product(clause, shards, gen_instances)
+            if ctx.quick:
+                # three and four octaves on the tonics with at most one accidental ("the pattern repeated n times")
+                ctx.product(clause, [(c, p, [x for x in t if len(x) <= 2], [3, 4]) for c, p, t in instances(k, [3, 4])], gen_instances)
     if ctx.want("call_order"):
         ctx.product("call_order", [(c, p, t, [1]) for c, p, t in instances(k, [1])], gen_instances)
     if ctx.want("len_eq"):
